@@ -61,6 +61,11 @@ def lst(t):
     return Ty("list", t=t)
 
 
+def mapty(k, v):
+    """map<K, V>: only used by the concrete-length template harnesses (no generic view/build support)"""
+    return Ty("map", k=k, v=v)
+
+
 STRING = Ty("string")
 
 
@@ -94,6 +99,8 @@ def wit(t) -> str:
         return "result<%s, %s>" % ("_" if t.ok is None else wit(t.ok), wit(t.err))
     if k == "list":
         return "list<%s>" % wit(t.t)
+    if k == "map":
+        return "map<%s, %s>" % (wit(t.k), wit(t.v))
     if k == "string":
         return "string"
     if k == "own":
@@ -117,6 +124,8 @@ def children(t):
         return [x for x in (t.ok, t.err) if x is not None]
     if k == "list":
         return [t.t]
+    if k == "map":
+        return [t.k, t.v]
     return []
 
 
@@ -144,7 +153,7 @@ def resources(t, out: dict):
 
 
 def has_heap(t) -> bool:
-    if t.kind in ("list", "string"):
+    if t.kind in ("list", "string", "map"):
         return True
     return any(has_heap(c) for c in children(t))
 
